@@ -50,11 +50,11 @@ PROPS = {
                      "cowclone", "detach", "setcow", "dig", "card", "empty", "of"}},
     "C03": {"suites": [("query", 1.0), ("kernq", 0.3)], "theorems": L1_QUERY,
             "owns": {"card", "empty", "has", "min", "max", "rank", "sel", "cir", "iwi", "eq", "toarr", "toexarr", "chkeq", "dig", "kern"}},
-    "C05": {"suites": [("ser", 1.0)],
+    "C05": {"suites": [("ser", 1.0), ("thresh", 1.0)],
             "theorems": ["RModel.Impl.encode_length", "RModel.Impl.decode_encode", "RModel.Impl.prefix_rejected",
                          "RModel.Impl.decode_no_panic", "RModel.Impl.roundtrip_wf", "RModel.BSet.canon_ext"] + F_SERIAL,
             "modules": DEFAULT_MODULES + [FACTS, "RProofs.Properties.C05"],
-            "owns": {"ser", "rd", "wrfail", "trunc", "wf", "dig", "add", "or"}},
+            "owns": {"ser", "rd", "wrfail", "trunc", "wf", "dig", "add", "or", "mkrepr"}},
     "C06": {"suites": [("spec", 1.0)], "theorems": ["RModel.BSet.canon_ext"] + F_SERIAL, "modules": DEFAULT_MODULES + [FACTS], "owns": {"spec", "ser", "card", "toarr"}},
     "C07": {"suites": [("alias", 1.0)], "modules": ["RModel"],
             "theorems": ["RModel.Impl.safe_nil", "RModel.Impl.safe_iff", "RModel.Impl.safe_unflagged_not_foreign",
@@ -63,7 +63,7 @@ PROPS = {
     "C08": {"suites": [("zerocopy", 1.0)], "modules": ["RModel"],
             "theorems": ["RModel.Impl.safe_iff", "RModel.Impl.safe_unflagged_not_foreign"],
             "owns": None},
-    "C09": {"suites": [("hist", 1.0), ("alg", 0.7), ("xform", 0.7), ("ser", 0.5), ("kernwf", 1.0), ("kernthresh", 1.0)],
+    "C09": {"suites": [("hist", 1.0), ("alg", 0.7), ("xform", 0.7), ("ser", 0.5), ("kernwf", 1.0), ("kernthresh", 1.0), ("thresh", 0.5)],
             "theorems": ["RModel.Impl.wf_implies_validate", "RModel.Impl.validate_implies_wf_of_decoded", "RModel.BSet.canon_ext"] + F_THRESH,
             "modules": DEFAULT_MODULES + [FACTS, "RProofs.Properties.C09"],
             "owns": {"wf", "kernwf"}},
@@ -72,7 +72,7 @@ PROPS = {
                          "RModel.Impl.decoded_valid_is_wf", "RModel.Impl.validate_implies_wf_of_decoded",
                          "RModel.BSet.canon_ext"] + F_SERIAL,
             "modules": DEFAULT_MODULES + [FACTS, "RProofs.Properties.C09", "RProofs.Properties.C05"], "owns": None},
-    "C14": {"suites": [("hist", 1.0), ("alg", 0.7), ("xform", 0.5)],
+    "C14": {"suites": [("hist", 1.0), ("alg", 0.7), ("xform", 0.5), ("thresh", 0.5)],
             "theorems": ["RModel.Impl.readme_bound", "RModel.Impl.bound_function", "RModel.BSet.canon_ext"] + F_SERIAL,
             "modules": DEFAULT_MODULES + [FACTS, "RProofs.Properties.C14"], "owns": {"size"}},
     "C15": {"suites": [("nbr", 1.0), ("kernq", 0.3)], "theorems": L1_NBR, "owns": {"nv", "pv", "nav", "pav", "kern"}},
